@@ -89,3 +89,20 @@ Theorem C05_ibc_transfer_survives_revert_refuted :
   nth 13 (b_bal (model_obs w_k3c_transfer_reverted)) 0 = 100.
 Proof. exact k3c_refuted. Qed.
 Print Assumptions C05_ibc_transfer_survives_revert_refuted.
+
+(** SELFDESTRUCT is journalled like every other cache mutation (it is one of the operations of
+    [C05_revert_restores_every_cache_observable] and a pure instruction of the frame theorems above);
+    on the implementation: a self-destruct inside a reverted frame leaves the contract alive, and a
+    repeated self-destruct inside a reverted frame restores both the flag and the balance. *)
+Theorem C05_selfdestruct_in_reverted_frame_undone_example :
+  model_obs w_sd_in_reverted_frame = impl_obs w_sd_in_reverted_frame /\ b_ok (model_obs w_sd_in_reverted_frame) = true /\
+  b_supply (model_obs w_sd_in_reverted_frame) = 0 /\ b_alive (model_obs w_sd_in_reverted_frame) = [true; true; true].
+Proof. exact sd_in_reverted_frame_undone. Qed.
+Print Assumptions C05_selfdestruct_in_reverted_frame_undone_example.
+
+Theorem C05_repeated_selfdestruct_in_reverted_frame_undone_example :
+  model_obs w_sd_again_in_reverted_frame = impl_obs w_sd_again_in_reverted_frame /\
+  b_ok (model_obs w_sd_again_in_reverted_frame) = true /\
+  b_supply (model_obs w_sd_again_in_reverted_frame) = -1000 /\ nth 1 (b_bal (model_obs w_sd_again_in_reverted_frame)) 0 = 5000.
+Proof. exact sd_again_in_reverted_frame_undone. Qed.
+Print Assumptions C05_repeated_selfdestruct_in_reverted_frame_undone_example.
